@@ -17,7 +17,11 @@ Supported(type, privfmt, pubfmt) == pubfmt = "default" /\ (privfmt = "pkcs8" \/ 
 \* r = [ok, privExists, pubExists, privType, pubType, privEnc, pubEnc, pair]
 KeysJudge(type, enc, privfmt, pubfmt, r) ==
   IF ~Supported(type, privfmt, pubfmt)
-  THEN (IF r.ok THEN "UnsupportedCombinationReportedAsError" ELSE "ok")    \* (the property does not speak of leftovers)
+  THEN (IF r.ok THEN "UnsupportedCombinationReportedAsError"
+        \* the property does not speak of leftovers - but two loadable key files at the prefix are a pair, also after a refusal
+        \* (an earlier pair must not be half overwritten)
+        ELSE IF r.privExists /\ r.pubExists /\ r.privType # "none" /\ r.pubType # "none" /\ ~r.pair
+             THEN "PrivateAndPublicBelongTogether" ELSE "ok")
   ELSE IF ~r.ok \/ ~r.privExists \/ ~r.pubExists THEN "SupportedCombinationWritesBothFiles"
   ELSE IF r.privType # type \/ r.pubType # type THEN "FilesHoldRequestedKeyType"
   ELSE IF r.privEnc # enc \/ r.pubEnc # enc THEN "FilesUseRequestedEncoding"
